@@ -2,6 +2,7 @@
 runner without importing quantem; MANIFEST.json is generated from it by vq/mkmanifest.py."""
 
 META = {}
+ERRORS = {}
 
 
 def _m(pid, level, rule, assumptions, workers=(1, 16), technique="", text="", note="", design="", title=""):
@@ -24,7 +25,10 @@ def _load():
 
     d = os.path.join(os.path.dirname(__file__), "metas")
     for mi in sorted(pkgutil.iter_modules([d]), key=lambda m: m.name):
-        importlib.import_module("vq.metas." + mi.name)
+        try:
+            importlib.import_module("vq.metas." + mi.name)
+        except Exception as e:  # noqa: BLE001 - a broken entry must only take its own property down
+            ERRORS[mi.name.upper()] = "%s: %s" % (type(e).__name__, e)
 
 
 _load()
